@@ -688,6 +688,9 @@ func runC14(r *Run) {
 	}
 
 	if r.Universal {
+		r.universalE11(P, pkgProvider, pkgModels, pkgTxnProc, pkgObserver, pkgCompression)
+	}
+	if r.Universal {
 		r.universalE6(P)
 		r.universalParamsLive(P, sinks)
 	}
@@ -890,4 +893,59 @@ func (r *Run) universalParamsLive(P string, sinks map[string][]sink) {
 		r.R.Check(live > 0, P+".universal.param.live."+n, "E3 (universal): every protocol parameter governs something — it has a non-message sink in subject code", "Protocol."+n, "pkg/api/protocol/protocol.go",
 			"a parameter that is never read cannot enforce its limit", fmt.Sprintf("%d sink(s)", live), "never read outside messages")
 	}
+}
+
+// universalE11: error discipline (thorough tier) — in the given packages every
+// call whose callee returns an error has that error consumed (tested, returned,
+// wrapped or passed on); an error value without any use is dropped.
+func (r *Run) universalE11(P string, rels ...string) {
+	n := 0
+	var dropped []string
+	for _, f := range r.P.SubjectFuncs(rels...) {
+		for _, b := range f.Blocks {
+			for _, ins := range b.Instrs {
+				c, ok := ins.(*ssa.Call)
+				if !ok {
+					continue
+				}
+				sig := c.Common().Signature()
+				res := sig.Results()
+				if res.Len() == 0 || res.At(res.Len()-1).Type().String() != "error" {
+					continue
+				}
+				// writers documented never to fail
+				if sc := c.Common().StaticCallee(); sc != nil && (strings.HasPrefix(sc.String(), "(*strings.Builder).") || strings.HasPrefix(sc.String(), "(*bytes.Buffer).") || strings.HasPrefix(sc.String(), "fmt.Fprint")) {
+					continue
+				}
+				n++
+				var ev ssa.Value
+				if res.Len() == 1 {
+					ev = c
+				} else if refs := c.Referrers(); refs != nil {
+					for _, rf := range *refs {
+						if ex, ok := rf.(*ssa.Extract); ok && ex.Index == res.Len()-1 {
+							ev = ex
+						}
+					}
+				}
+				used := false
+				if ev != nil {
+					if refs := ev.Referrers(); refs != nil {
+						for _, rf := range *refs {
+							if _, isDbg := rf.(*ssa.DebugRef); !isDbg {
+								used = true
+							}
+						}
+					}
+				}
+				if !used {
+					key, _, _ := r.P.CalleeKey(c.Common())
+					dropped = append(dropped, fmt.Sprintf("%s drops the error of %s at %s", core.FuncName(f), key, r.P.Pos(c.Pos())))
+				}
+			}
+		}
+	}
+	r.R.SetCount("E11 error-returning call sites examined", n)
+	r.R.Check(len(dropped) == 0 && n > 50, P+".universal.errors", "E11 (universal): no error returned by a callee is dropped in "+strings.Join(rels, ", "), "error discipline", "-",
+		"a dropped validation / storage / decoding error turns a rejection into an acceptance", fmt.Sprintf("%d error-returning call sites, all consumed", n), strings.Join(dropped, "; "))
 }
